@@ -1063,6 +1063,8 @@ class Interp(object):
                     lo, hi = lo0, add(lo0, rg.fields[0])
                 elif nm == "RangeInclusive":
                     lo, hi = add(lo0, rg.fields[0]), add(add(lo0, rg.fields[1]), 1)
+                elif nm == "RangeToInclusive":
+                    lo, hi = lo0, add(add(lo0, rg.fields[0]), 1)
                 else:
                     raise Undecided("range kind " + nm)
                 if hi is not None:
